@@ -26,6 +26,9 @@ def main(argv=None):
     seed = int(os.environ.get("VERIF_SEED", "0") or 0)
     try:
         ensure_built()
+        # rebuild the C++ stepping kernel from the working tree once, here: every worker / scheduler process inherits it (environment)
+        from . import zshim, REPO
+        zshim.prepare(REPO)
         mod = importlib.import_module("drivers." + a.prop.lower())
         if a.replay:
             # a replay file records the tier and seed of the run that found the violation and the failing events with TLC's clause
